@@ -1,8 +1,99 @@
-import VrpModel.Num
+import VrpModel.Store
 
+/-!
+# C16 — Formulations are isolated from their source graph and from each other (object-store level)
+
+The theorems are about the explicit object store of `VrpModel/Store.lean`; they certify the dataflow
+(who reads / writes which cell).  That Python's `copy.deepcopy` yields disjoint objects is outside the
+model and is carried by the identity-disjointness test of the correspondence run.
+-/
 namespace Vrp.C16
+open Vrp
 
-/-- placeholder until the object-store model is merged -/
-theorem placeholder_true : True := trivial
+variable {σ α : Type} (mk : Nat → Graph → σ) (act : σ → α → σ)
+
+/-- **the source is never changed**, whatever is constructed, made feasible or queried, in any order -/
+theorem source_unchanged (w : World σ) (ops : List (WOp α)) : (World.run mk act w ops).source = w.source := by
+  induction ops generalizing w with
+  | nil => rfl
+  | cons op ops ih =>
+    simp only [World.run, List.foldl_cons] at ih ⊢
+    rw [ih]
+    cases op with
+    | get k => simp only [World.step]; split <;> rfl
+    | act k a => simp only [World.step]; split <;> rfl
+
+theorem step_other_slot (w : World σ) (op : WOp α) (j : Nat) (h : op.target ≠ j) :
+    (World.step mk act w op).slot j = w.slot j := by
+  cases op with
+  | get k =>
+    simp only [WOp.target] at h
+    simp only [World.step]; split
+    · rfl
+    · simp [Ne.symm h]
+  | act k a =>
+    simp only [WOp.target] at h
+    simp only [World.step]; split
+    · rfl
+    · simp [Ne.symm h]
+
+theorem step_source (w : World σ) (op : WOp α) : (World.step mk act w op).source = w.source := by
+  cases op with
+  | get k => simp only [World.step]; split <;> rfl
+  | act k a => simp only [World.step]; split <;> rfl
+
+/-- one step on slot `j` only depends on the source and on slot `j` -/
+theorem step_slot_congr (w w' : World σ) (op : WOp α) (j : Nat) (hs : w.source = w'.source)
+    (hj : w.slot j = w'.slot j) :
+    (World.step mk act w op).slot j = (World.step mk act w' op).slot j := by
+  by_cases ht : op.target = j
+  · cases op with
+    | get k =>
+      simp only [WOp.target] at ht; subst ht
+      simp only [World.step]
+      rw [← hj]
+      cases h : w.slot k <;> simp [h, hs, hj]
+      · rw [← hj, h]
+    | act k a =>
+      simp only [WOp.target] at ht; subst ht
+      simp only [World.step]
+      rw [← hj]
+      cases h : w.slot k <;> simp [h, hj]
+      · rw [← hj, h]
+  · rw [step_other_slot mk act w op j ht, step_other_slot mk act w' op j ht, hj]
+
+/-- **non-interference**: the state of formulation `j` after any history depends only on the source and on the
+    calls addressed to `j` (all other calls can be dropped) -/
+theorem non_interference (w : World σ) (ops : List (WOp α)) (j : Nat) :
+    (World.run mk act w ops).slot j = (World.run mk act w (ops.filter fun op => op.target = j)).slot j := by
+  suffices ∀ (w w' : World σ), w.source = w'.source → w.slot j = w'.slot j →
+      (World.run mk act w ops).slot j = (World.run mk act w' (ops.filter fun op => op.target = j)).slot j from
+    this w w rfl rfl
+  induction ops with
+  | nil => intro w w' _ hj; simpa [World.run] using hj
+  | cons op ops ih =>
+    intro w w' hs hj
+    simp only [World.run, List.foldl_cons] at ih ⊢
+    by_cases ht : op.target = j
+    · simp only [List.filter_cons, ht, decide_true, if_true, List.foldl_cons]
+      exact ih _ _ (by rw [step_source, step_source, hs]) (step_slot_congr mk act w w' op j hs hj)
+    · simp only [List.filter_cons, ht, decide_false]
+      exact ih _ _ (by rw [step_source, hs]) (by rw [step_other_slot mk act w op j ht, hj])
+
+/-- **order independence**: two histories that contain the same calls per formulation (in the same relative
+    order for each formulation, arbitrarily interleaved across formulations — e.g. the 6 request orders of the
+    three MIRP getters) produce identical formulations -/
+theorem order_independent (w : World σ) (ops ops' : List (WOp α))
+    (h : ∀ j, ops.filter (fun op => op.target = j) = ops'.filter (fun op => op.target = j)) (j : Nat) :
+    (World.run mk act w ops).slot j = (World.run mk act w ops').slot j := by
+  rw [non_interference mk act w ops j, non_interference mk act w ops' j, h j]
+
+/-- **requesting a formulation twice returns the same object** (the second request changes nothing) -/
+theorem getter_idempotent (w : World σ) (k : Nat) :
+    World.step mk act (World.step mk act w (.get k)) (.get k) = World.step mk act w (.get k) := by
+  simp only [World.step]
+  cases h : w.slot k with
+  | some s => simp [h]
+  | none => simp [h]
 
 end Vrp.C16
